@@ -74,6 +74,22 @@ fn check_eci_number(n: u32) -> Result<(), String> {
         Ok(Err(e)) => return Err(format!("designator {:?} of ECI {} is rejected by the decoder: {:?}", &form[1..], n, e)),
         Err(p) => return Err(format!("decoder panicked on designator {:?} of ECI {}: {}", &form[1..], n, p)),
     }
+    // the designator must not disturb what follows it: a padded stream (two and more pads, whose
+    // 253-state randomisation depends on the codeword position) and a Base256 field (255-state)
+    let padded = refimpl::codec::pad_to(stream.clone(), stream.len() + 2 + (n as usize % 5));
+    match guard(|| datamatrix::verif::decode_parts(&padded, true)) {
+        Ok(Ok(p)) if p.eci_spans == vec![(0usize, n)] && p.output == b"A" => {}
+        Ok(other) => return Err(format!("designator of ECI {} followed by data and {} pad codewords reads back as {:?} (stream {:?})", n, padded.len() - stream.len(), other.map(|p| (p.eci_spans, p.output)), padded)),
+        Err(p) => return Err(format!("decoder panicked on the padded stream for ECI {}: {}", n, p)),
+    }
+    let mut b256 = form.clone();
+    let payload = [0xE9u8, (n % 251) as u8, 0x80];
+    carry(&payload, true, &mut b256);
+    match guard(|| datamatrix::verif::decode_parts(&b256, true)) {
+        Ok(Ok(p)) if p.eci_spans == vec![(0usize, n)] && p.output == payload => {}
+        Ok(other) => return Err(format!("designator of ECI {} followed by a Base256 field reads back as {:?} (stream {:?})", n, other.map(|p| (p.eci_spans, p.output)), b256)),
+        Err(p) => return Err(format!("decoder panicked on ECI {} + Base256: {}", n, p)),
+    }
     // public API cross check: raw decoding refuses ECIs
     match guard(|| datamatrix::data::decode_data(&stream)) {
         Ok(Err(DataDecodingError::ECICode)) => {}
